@@ -8,6 +8,8 @@ CBF timeout are arbitrary (`env : Env` is universally quantified everywhere).
 -/
 import FlexModel.Geo.RouterLemmas
 import FlexModel.Geo.NetLemmas
+import FlexModel.Geo.NetFlood
+import Generated.Mib
 
 namespace Props.C06
 open FlexModel.Geo
@@ -46,7 +48,7 @@ theorem forward_is_copy (c : RCfg) (hg : c.gacFix = true) (s : RSt) (p : Pkt) (e
   · cases hc
   obtain ⟨h2, hcopy⟩ := hok.1 q rfl
   have ht : (recvR c s p env now).1.t = (recv c.loct s.t p.kind p.so p.soPV p.sn now).1 := by
-    rw [recvR_t, if_neg (by omega)]
+    rw [recvR_t_of_send c s p env now q h, recvT, if_neg (by omega)]
   rcases hcopy with rfl | ⟨hk, rfl⟩
   · exact ⟨h2, by simp only [fwd]; omega, by simp only [fwd]; omega, Or.inl rfl⟩
   · rcases refreshDE_spec (recv c.loct s.t p.kind p.so p.soPV p.sn now).1 p with hr | ⟨e, h1, h2', h3, hr⟩
@@ -91,16 +93,17 @@ theorem duplicate_is_quiet (c : RCfg) (hv : c.loct.v = {}) (hg : c.gacFix = true
     ∀ act ∈ (recvR c s p env now).2, act = .cancel (p.so, p.sn) :=
   duplicate_causes_nothing c hv hg s p env now e hu hm hlive hin
 
-/-- whenever a multi-hop packet causes a delivery, a transmission or a CBF timer, the location table accepted it, and
-its sequence number is then the newest element of the source's duplicate packet list -/
+/-- whenever a multi-hop packet causes a delivery, a transmission or a CBF timer (or, for an LS reply at the requester, a
+Location Service action), the location table accepted it, and its sequence number is then the newest element of the duplicate
+packet list of the source's entry (`hasPV`: the entry proper, not a Location Service placeholder) -/
 theorem acted_implies_recorded (c : RCfg) (hv : c.loct.v = {}) (hg : c.gacFix = true) (s : RSt) (p : Pkt) (env : Env)
     (now : Nat) (act : Act) (hu : Uniq s.t) (hm : p.kind.singleHop = false) (hact : act ∈ (recvR c s p env now).2)
     (hne : act ≠ .cancel (p.so, p.sn)) :
-    ∀ e', lookup (recvR c s p env now).1.t p.so = some e' → ∃ pre, e'.dpl = pre ++ [p.sn] := by
+    ∀ e', lookup (recvR c s p env now).1.t p.so = some e' → e'.hasPV = true → ∃ pre, e'.dpl = pre ++ [p.sn] := by
   rcases recvR_acts c hg s p env now act hact with ⟨hc, _⟩ | ⟨_, hle, hok⟩
   · exact absurd hc hne
-  · intro e' h'
-    exact accepted_sn_recorded c hv s p env now e' hu hm hle hok h'
+  · intro e' h' hpv
+    exact accepted_sn_recorded c hv s p env now e' hu hm hle hok h' hpv
 
 /-- ALL HISTORIES.  Start: the entry of `a` lives (PV time in window `B`) and holds `sn` in its duplicate packet list with
 `post` newer sequence numbers behind it (`post = []` right after the first acceptance, see `acted_implies_recorded`).
@@ -280,5 +283,205 @@ example :
     let ops := [NetOp.deliver 0 {} 1000 [0, 2], .deliver 0 {} 1001 [1], .deliver 0 {} 1002 [1], .deliver 0 {} 1003 [0, 2],
       .deliver 0 {} 1004 [], .deliver 0 {} 1005 []]
     (netRun n0 ops).air = [] ∧ (netRun n0 (ops.take 1)).air.length = 2 := by decide
+
+/-! ## Location Service reply at the requester (§10.3.7.1.4) -/
+
+/-- an LS reply addressed to this station is neither delivered to the upper layer nor forwarded nor buffered for CBF: its
+only effects are Location Service actions for its source (`lsSend`, `origGuc`), and the CBF buffer is left alone - for every
+state, every LS state, every outcome of the location table -/
+theorem ls_reply_at_requester (c : RCfg) (s : RSt) (p : Pkt) (env : Env) (now : Nat) (hk : p.kind = .lsRep)
+    (hme : mid p.de = mid c.loct.self) :
+    (∀ act ∈ (recvR c s p env now).2, act = .lsSend p.so ∨ act = .origGuc p.so) ∧ (recvR c s p env now).1.buf = s.buf := by
+  unfold recvR
+  by_cases h1 : p.rhl > p.mhl
+  · simp [h1]
+  simp only [h1, if_false]
+  cases hr : (recv c.loct s.t p.kind p.so p.soPV p.sn now).2
+  case dad => simp
+  case dup =>
+    simp only []
+    have : ¬ (p.kind = .gbc ∧ c.cbf = true ∧ c.cbfFix = true) := by
+      intro hx; rw [hk] at hx; cases hx.1
+    simp [this]
+  case ok =>
+    simp only [handle, hk, hme, if_true]
+    obtain ⟨h2, h3, _⟩ := lsComplete_spec { s with t := (recv c.loct s.t p.kind p.so p.soPV p.sn now).1 } p.so
+    rw [hk] at h2 h3
+    exact ⟨h2, h3⟩
+
+/-- the flush of the LS packet buffer is unreachable without a pending Location Service: if no GUC request waits for the
+source of the reply, the LS reply at the requester causes no action at all -/
+theorem ls_reply_without_pending_request_is_quiet (c : RCfg) (s : RSt) (p : Pkt) (env : Env) (now : Nat)
+    (hk : p.kind = .lsRep) (hme : mid p.de = mid c.loct.self) (hno : (lsBufGet s.lsBuf p.so).getD 0 = 0) :
+    (recvR c s p env now).2 = [] := by
+  unfold recvR
+  by_cases h1 : p.rhl > p.mhl
+  · simp [h1]
+  simp only [h1, if_false]
+  cases hr : (recv c.loct s.t p.kind p.so p.soPV p.sn now).2
+  case dad => rfl
+  case dup =>
+    simp only []
+    have : ¬ (p.kind = .gbc ∧ c.cbf = true ∧ c.cbfFix = true) := by
+      intro hx; rw [hk] at hx; cases hx.1
+    simp [this]
+  case ok =>
+    simp only [handle, hk, hme, if_true]
+    exact lsComplete_no_pending _ p.so hno
+
+/-- an accepted LS reply whose source has an entry afterwards (its position vector is not older than the lifetime)
+re-submits every waiting GUC request exactly once and closes the Location Service: flag, counter and buffer of the source are
+gone, so a later LS reply of the same source flushes nothing (`ls_reply_without_pending_request_is_quiet`) -/
+theorem ls_reply_flushes_buffer_once (c : RCfg) (s : RSt) (p : Pkt) (env : Env) (now : Nat) (e : Entry)
+    (hk : p.kind = .lsRep) (hme : mid p.de = mid c.loct.self) (hle : p.rhl ≤ p.mhl)
+    (hok : (recv c.loct s.t p.kind p.so p.soPV p.sn now).2 = .ok)
+    (he : lookup (recv c.loct s.t p.kind p.so p.soPV p.sn now).1 p.so = some e) :
+    (recvR c s p env now).2 = List.replicate ((lsBufGet s.lsBuf p.so).getD 0) (.origGuc p.so) ∧
+    lookup (recvR c s p env now).1.t p.so = some { e with lsPending := false } ∧
+    lsBufGet (recvR c s p env now).1.lsBuf p.so = none ∧ (recvR c s p env now).1.lsCnt.contains p.so = false := by
+  have heq : recvR c s p env now =
+      lsComplete { s with t := (recv c.loct s.t p.kind p.so p.soPV p.sn now).1 } p.so := by
+    unfold recvR
+    simp only [if_neg (Nat.not_lt.2 hle), hok]
+    simp only [handle, hk, hme, if_true]
+  rw [heq]
+  exact lsComplete_known _ p.so e he
+
+/-- non-vacuity: the station asks for station 5 twice with a GUC request each (one LS request goes out), a third party's
+packet passes, the LS reply of 5 arrives: both requests are re-submitted, the entry of 5 has its flag cleared; a second LS
+reply and an exact duplicate of the first cause nothing -/
+example :
+    let c : RCfg := { loct := { self := 1, lifetimeMs := 20000, dplLen := 4 } }
+    let r : Pkt := { kind := .lsRep, rhl := 5, mhl := 10, so := 5, soPV := { time := 1000 }, sn := 3, de := 1 }
+    let x := rrun c {} [.lsreq 5 true, .lsreq 5 true, .rx { r with kind := .tsb, so := 6 } {} 1000, .rx r {} 1010,
+      .rx { r with sn := 4 } {} 1020, .rx r {} 1030]
+    x.2 = [[.lsSend 5], [], [.send (fwd { r with kind := .tsb, so := 6 }), .deliver .tsb 6 3],
+      [.origGuc 5, .origGuc 5], [], []] ∧
+    (lookup x.1.t 5).map (·.lsPending) = some false ∧ x.1.lsBuf = [] ∧ x.1.lsCnt = [] := by decide
+
+/-! ## One station, all histories: the packet `(a, sn)` is transmitted at most once and delivered at most once -/
+
+/-- configuration well-formedness used by the model: the duplicate packet list has a positive length.  (For length 0 the
+code's `deque(maxlen=0)` makes `popleft()` raise on the first multi-hop packet, which the model - `dplPush 0` keeps
+appending - does not mirror; `dpl_ring` and the network theorem carry `0 < L`.)  Re-checked against the MIB default of the
+source tree on every run. -/
+theorem dpl_length_default_wellformed : 0 < Generated.Mib.itsGnDPLLength := by decide
+
+/-- ALL HISTORIES OF ONE STATION (headline form of the property's first sentence).  Start: any state in which `(a, sn)` has
+not been seen (`StInit`: unique table keys, `a`'s entry absent or alive until `lim`, no copy of the packet in the CBF buffer,
+buffer keyed by packet identity - true of the empty state and of every state reached without `(a, sn)`).  History: ANY
+sequence of receptions (fresh packets, exact duplicates, replays, any kinds, any sources, any opaque inputs) and CBF timer
+expiries that happen inside the clock window and before `lim`, in which packets of `a` carry position timestamps that keep
+`a`'s entry alive until `lim` (`ROpOK2`; without it the known finding C06-KF1 applies), and which contains at most `L - 1`
+multi-hop packets of `a` with other sequence numbers (the duplicate packet list window).  Then the station transmits
+`(a, sn)` at most once - immediately or later from its CBF buffer - and delivers it to the upper layer at most once; a station
+whose own address is `a` does neither. -/
+theorem station_at_most_once (c : RCfg) (hv : c.loct.v = {}) (hg : c.gacFix = true) (a : Addr) (sn B lim : Nat)
+    (H : List ROp) (s : RSt) (hinit : StInit c a sn B lim s) (hops : ∀ op ∈ H, ROpOK2 c a B lim op)
+    (hcnt : countOther a sn H ≤ c.loct.dplLen - 1) :
+    txLog a sn (rrun c s H).2 ≤ 1 ∧ dlvLog a sn (rrun c s H).2 ≤ 1 ∧
+    (mid a = mid c.loct.self → txLog a sn (rrun c s H).2 = 0 ∧ dlvLog a sn (rrun c s H).2 = 0) :=
+  FlexModel.Geo.station_at_most_once c hv hg a sn B lim H s hinit hops hcnt
+
+/-- non-vacuity: from the empty state; TSB (5,7), a beacon of 5, another packet of 5, a packet of 6, a replay of (5,7), the
+same identity as GBC, a timer expiry, another replay: one transmission and one delivery of (5,7) in the whole history -/
+example :
+    let c : RCfg := { loct := { self := 1, lifetimeMs := 20000, dplLen := 2 } }
+    let p : Pkt := { kind := .tsb, rhl := 3, mhl := 10, so := 5, soPV := { time := 1000 }, sn := 7 }
+    let H := [ROp.rx p {} 1000, .rx { p with kind := .beacon, sn := 0 } {} 1050, .rx { p with sn := 8 } {} 1100,
+      .rx { p with so := 6 } {} 1200, .rx p {} 1300, .rx { p with kind := .gbc } { inside := true } 1350, .fire (5, 7),
+      .rx p {} 1400]
+    StInit c 5 7 0 20000 {} ∧ (∀ op ∈ H, ROpOK2 c 5 0 20000 op) ∧ countOther 5 7 H ≤ c.loct.dplLen - 1 ∧
+    txLog 5 7 (rrun c {} H).2 = 1 ∧ dlvLog 5 7 (rrun c {} H).2 = 1 := by decide
+
+/-! ## The network-level count: every station at most once, at most n - 1 re-transmissions, hop budget -/
+
+/-- EVERY STATION, EVERY SCHEDULE.  Network of any number of stations (any configurations running the repaired code, any
+start states satisfying `StInit`), broadcast medium with arbitrary delivery order, loss, duplication and arbitrary receiver
+sets (= any topology), arbitrary CBF timer expiry points, SIMPLE and CBF in any mix, any other traffic in the air.  Under
+`FloodHyp` (decidable; at every station: `a`'s location table entry stays alive until `lim`, fewer than `itsGnDPLLength`
+multi-hop packets of `a` with other sequence numbers are received) every station re-transmits the packet `(a, sn)` at most
+once - immediately or from its CBF buffer - and delivers it to the upper layer at most once; a station whose own address
+is `a` does neither. -/
+theorem flood_station_at_most_once (a : Addr) (sn B lim : Nat) (n : Net) (ops : List NetOp)
+    (h : FloodHyp a sn B lim n ops) (i : Nat) (nd : Node) (hnd : n.nodes[i]? = some nd) :
+    txCount a sn i (netTrace n ops) ≤ 1 ∧ dlvCount a sn i (netTrace n ops) ≤ 1 ∧
+    (mid a = mid nd.c.loct.self → txCount a sn i (netTrace n ops) = 0 ∧ dlvCount a sn i (netTrace n ops) = 0) :=
+  flood_station_bound a sn B lim n ops h i nd hnd
+
+/-- THE NETWORK-LEVEL THEOREM.  A multi-hop packet `(a, sn)` originated with hop limit `h` by station `o` (every copy of it
+in flight at the start is the originator's transmission: RHL `h`, no hop made) in a network of `n` stations: for EVERY
+schedule `ops` satisfying `FloodHyp`
+* every station re-transmits it at most once and delivers it at most once,
+* the originator never re-transmits or delivers it,
+* the whole flood consists of at most `n` transmissions (the origination and at most `n - 1` re-transmissions),
+* every copy in flight carries RHL = `h` minus the number of hops it made (ghost counter of `HNet`). -/
+theorem network_flood_at_most_once (a : Addr) (sn B lim h : Nat) (x : HNet) (ops : List NetOp) (o : Nat) (ndo : Node)
+    (hyp : FloodHyp a sn B lim x.toNet ops)
+    (ho : x.nodes[o]? = some ndo) (hself : mid a = mid ndo.c.loct.self)
+    (horig : ∀ f ∈ x.air, f.2.1.so = a → f.2.1.sn = sn → f.2.1.rhl = h ∧ f.2.2 = 0) :
+    (∀ i nd, x.nodes[i]? = some nd →
+      txCount a sn i (netTrace x.toNet ops) ≤ 1 ∧ dlvCount a sn i (netTrace x.toNet ops) ≤ 1) ∧
+    (txCount a sn o (netTrace x.toNet ops) = 0 ∧ dlvCount a sn o (netTrace x.toNet ops) = 0) ∧
+    totalTx a sn (netTrace x.toNet ops) + 1 ≤ x.nodes.length ∧
+    (∀ f ∈ (netRunH x ops).air, f.2.1.so = a → f.2.1.sn = sn → f.2.1.rhl + f.2.2 = h) := by
+  refine ⟨fun i nd hnd => ?_, ?_, ?_, ?_⟩
+  · have := flood_station_bound a sn B lim x.toNet ops hyp i nd hnd
+    exact ⟨this.1, this.2.1⟩
+  · exact (flood_station_bound a sn B lim x.toNet ops hyp o ndo ho).2.2 hself
+  · exact flood_total_bound a sn B lim x.toNet ops hyp o ndo ho hself
+  · exact (hopInv_run a sn h ops x (floodHyp_gacFix a sn B lim x.toNet ops hyp)
+      (hopInv_origin a sn h x horig (floodHyp_no_buffered a sn B lim x.toNet ops hyp))).1
+
+/-- the hop budget alone needs no window hypothesis: in every network running the repaired code, along every schedule,
+every copy of `(a, sn)` in flight or in a CBF buffer carries RHL = `h` minus the hops it made -/
+theorem flood_hop_budget (a : Addr) (sn h : Nat) (x : HNet) (ops : List NetOp)
+    (hg : ∀ nd ∈ x.nodes, nd.c.gacFix = true) (h0 : HopInv a sn h x) : HopInv a sn h (netRunH x ops) :=
+  hopInv_run a sn h ops x hg h0
+
+/-- … combined with `flood_terminates`: every schedule of effective medium operations is finite (at most `weight` operations,
+then the medium is silent and no timer is pending), and however long it is, it contains at most `n - 1` re-transmissions
+of the flood -/
+theorem flood_ends_within_n_transmissions (F : Nat) (a : Addr) (sn B lim : Nat) (n : Net) (ops : List NetOp) (o : Nat)
+    (ndo : Node) (hyp : FloodHyp a sn B lim n ops) (ho : n.nodes[o]? = some ndo) (hself : mid a = mid ndo.c.loct.self)
+    (heff : AllEffective F n ops) :
+    ops.length ≤ n.weight (F + 2) ∧ totalTx a sn (netTrace n ops) + 1 ≤ n.nodes.length := by
+  have h1 := net_run_bound F ops n (floodHyp_gacFix a sn B lim n ops hyp) heff
+  exact ⟨by omega, flood_total_bound a sn B lim n ops hyp o ndo ho hself⟩
+
+/-- non-vacuity, SIMPLE forwarding: three stations in a row (0 - 1 - 2), TSB with hop limit 3 from station 0.  The
+hypotheses hold, the medium ends empty, stations 1 and 2 re-transmit once each (the bound n - 1 = 2 is attained), every
+station but the originator delivers once, and the originator hears its own packet back without reacting -/
+example :
+    let mk (a : Nat) : Node := { c := { loct := { self := a, lifetimeMs := 20000, dplLen := 8 } }, s := {} }
+    let p : Pkt := { kind := .tsb, rhl := 3, mhl := 10, so := 100, soPV := { time := 1000 }, sn := 7 }
+    let x : HNet := { nodes := [mk 100, mk 101, mk 102], air := [(1, p, 0)] }
+    let ops := [NetOp.deliver 0 {} 1000 [0, 2], .deliver 0 {} 1001 [1], .deliver 0 {} 1002 [1], .deliver 0 {} 1003 [0, 2],
+      .deliver 0 {} 1004 [], .deliver 0 {} 1005 []]
+    let tr := netTrace x.toNet ops
+    floodHypB 100 7 0 20000 x.toNet ops = true ∧ (netRunH x ops).air = [] ∧
+    [0, 1, 2].map (fun i => txCount 100 7 i tr) = [0, 1, 1] ∧ [0, 1, 2].map (fun i => dlvCount 100 7 i tr) = [0, 1, 1] ∧
+    totalTx 100 7 tr + 1 = 3 ∧ ((netRunH x (ops.take 1)).air.map (fun f => (f.2.1.rhl, f.2.2))) = [(2, 1), (2, 1)] ∧
+    ((netRunH x (ops.take 3)).air.map (fun f => (f.2.1.rhl, f.2.2))) = [(1, 2)] := by
+  decide
+
+/-- non-vacuity, CBF: four stations in a ring (0 - 1 - 2 - 3 - 0), GBC with hop limit 4 from station 0, every station inside
+the area.  Stations 1 and 3 buffer a copy, their timers fire, station 2 buffers the copy heard from 1, its timer fires
+before the copy of 3 arrives (a duplicate: quiet).  Hypotheses hold, n - 1 = 3 re-transmissions, medium and buffers end
+empty -/
+example :
+    let mk (a : Nat) : Node := { c := { loct := { self := a, lifetimeMs := 20000, dplLen := 2 }, cbf := true }, s := {} }
+    let p : Pkt := { kind := .gbc, rhl := 4, mhl := 10, so := 100, soPV := { time := 1000 }, sn := 65535 }
+    let e : Env := { inside := true, cbfMs := 50 }
+    let x : HNet := { nodes := [mk 100, mk 101, mk 102, mk 103], air := [(1, p, 0), (3, p, 0)] }
+    let ops := [NetOp.deliver 0 e 1000 [0, 2], .deliver 0 e 1000 [0, 2], .fire 1 (100, 65535) [0, 2],
+      .fire 3 (100, 65535) [0, 2], .deliver 1 e 1010 [1, 3], .fire 2 (100, 65535) [1, 3], .deliver 0 e 1011 [],
+      .deliver 0 e 1012 [], .deliver 0 e 1013 [], .deliver 0 e 1014 [], .deliver 0 e 1015 [], .fire 2 (100, 65535) [1, 3]]
+    let tr := netTrace x.toNet ops
+    floodHypB 100 65535 0 20000 x.toNet ops = true ∧ (netRunH x ops).air = [] ∧
+    (netRunH x ops).nodes.all (fun nd => nd.s.buf.isEmpty) = true ∧
+    [0, 1, 2, 3].map (fun i => txCount 100 65535 i tr) = [0, 1, 1, 1] ∧
+    [0, 1, 2, 3].map (fun i => dlvCount 100 65535 i tr) = [0, 1, 1, 1] ∧ totalTx 100 65535 tr + 1 = 4 := by
+  decide
 
 end Props.C06
